@@ -30,7 +30,8 @@ RULE = ('cases = (backend, history of <= 30 steps (session, op, raw ints)). '
         'Non-trivial = the history expunges the highest UID of a mailbox and '
         'then adds a message there, or two different sessions add messages '
         'to the same mailbox, or it contains a rename / move, or (maildir) '
-        'a restart; distinct by case hash.')
+        'a restart or a delivery dropped straight into new/; distinct by '
+        'case hash.')
 ASSUMPTIONS = ['a UIDVALIDITY collision (two mailboxes created in the same '
                'second with equal random parts) is not steered and stays '
                'unexplored',
@@ -42,7 +43,8 @@ BUDGET = {'quick': (300, 16), 'thorough': (6000, 16)}
 
 OPS = ['append', 'append', 'append', 'multiappend', 'copy', 'uidcopy', 'move',
        'uidmove', 'expunge-highest', 'expunge-highest', 'expunge-some',
-       'rename', 'recreate', 'select', 'status', 'restart']
+       'rename', 'recreate', 'select', 'status', 'restart', 'deliver',
+       'deliver']
 BOXES = [b'INBOX', b'A', b'B']
 
 
@@ -367,6 +369,30 @@ def run_case(case: dict[str, Any]) -> CaseOut:
                 if ok and m and un:
                     note_uidnext(int(m.group(1)), int(un.group(1)), box,
                                  where)
+            elif op == 'deliver':
+                # a delivery agent drops a file straight into new/ (maildir)
+                if backend != 'maildir':
+                    continue
+                import os
+                root = os.path.join(w.tmp, 'alice')
+                mdir = root if box == b'INBOX' else os.path.join(
+                    root, '.' + box.decode())
+                if not os.path.isdir(os.path.join(mdir, 'new')):
+                    continue
+                vid[0] += 1
+                v = b'v%d' % vid[0]
+                with open(os.path.join(mdir, 'new', '17000%05d.M1P1Q%d.host'
+                                       % (vid[0], vid[0])), 'wb') as f:
+                    f.write(b'X-Vid: ' + v + b'\r\n\r\ndelivered\r\n')
+                nt = True
+                out.label('delivery')
+                # whoever looks next adopts it; everything it then reports
+                # must obey the invariant
+                found = verify(box, where)
+                if found is not None and v not in found.values():
+                    fail('delivered-message-not-served',
+                         f'{where}: {v!r} dropped into new/ of {box!r} is not '
+                         f'served; mailbox has {found}')
             elif op == 'restart':
                 if backend != 'maildir':
                     continue
